@@ -55,6 +55,12 @@ Definition znth {A} (l : list A) (k : Z) : option A :=
 (* Go int arithmetic is 64-bit two's complement *)
 Definition wrap64 (z : Z) : Z := (z + 2^63) mod 2^64 - 2^63.
 
+(* the dimension test of the matrix readers (a328708 sparse, 6dfd87a dense):
+     r.Rows < 0 || r.Cols < 0 || (r.Cols != 0 && r.Rows*r.Cols/r.Cols != r.Rows)
+   Go's * wraps, / truncates *)
+Definition dims_bad (rows cols : Z) : bool :=
+  (rows <? 0) || (cols <? 0) || (negb (cols =? 0) && negb (Z.quot (wrap64 (rows * cols)) cols =? rows)).
+
 (* 0, 1, ..., n-1 *)
 Definition zrange (n : Z) : list Z := map Z.of_nat (seq 0 (Z.to_nat n)).
 
@@ -325,14 +331,14 @@ Definition write_dm (m : dmat E) : res (dmdoc D) :=
   docs <- mapR wr vals ;;
   Ok (mkDmDoc docs (dm_rows m) (dm_cols m)).
 
-(* UnmarshalJSON (d37b260): after the decoder, Rows < 0 || Cols < 0 || len(Values) != Rows*Cols is an error.
-   Rows*Cols is a Go int product: it wraps, so a document whose dimensions overflow to len(Values) is still
-   accepted (e.g. Values = [], Rows = Cols = 2^32).  The Real matrices crop / allocate their two scratch
-   vectors afterwards (initTmp); with non-negative dimensions that cannot panic any more (memory is not
-   modelled), so [has_tmp] no longer changes the outcome. *)
+(* UnmarshalJSON (d37b260, 6dfd87a): after the decoder,
+     Rows < 0 || Cols < 0 || (Cols != 0 && Rows*Cols/Cols != Rows) || len(Values) != Rows*Cols
+   is an error (the third disjunct rejects dimensions whose Go int product wraps around).  The Real matrices
+   crop / allocate their two scratch vectors afterwards (initTmp); with non-negative dimensions that cannot
+   panic any more (memory is not modelled), so [has_tmp] no longer changes the outcome. *)
 Definition read_dm (has_tmp : bool) (d : dmdoc D) : res (dmat E) :=
   vals <- mapR rd (dmd_values d) ;;
-  if (dmd_rows d <? 0) || (dmd_cols d <? 0) || negb (zlen (dmd_values d) =? wrap64 (dmd_rows d * dmd_cols d)) then Err else
+  if dims_bad (dmd_rows d) (dmd_cols d) || negb (zlen (dmd_values d) =? wrap64 (dmd_rows d * dmd_cols d)) then Err else
   Ok (mkDm vals (dmd_rows d) (dmd_cols d) 0 (dmd_rows d) 0 (dmd_cols d) false).
 
 (* ----------------------------------------------------- sparse matrices *)
@@ -387,12 +393,10 @@ Definition read_sm_core (d : smdoc T) : res (smat F) :=
 
 (* UnmarshalJSON (a328708): Rows < 0 || Cols < 0 || (Cols != 0 && Rows*Cols/Cols != Rows) is an error
    (Go's * wraps, / truncates), then every index must lie in [0, Rows*Cols) and not be repeated *)
-Definition sm_dims_bad (rows cols : Z) : bool :=
-  (rows <? 0) || (cols <? 0) || (negb (cols =? 0) && negb (Z.quot (wrap64 (rows * cols)) cols =? rows)).
 Definition read_sm (d : smdoc T) : res (smat F) :=
   vals <- parse_list (smd_value d) ;;
   if negb (zlen (smd_index d) =? zlen vals) then Err
-  else if sm_dims_bad (smd_rows d) (smd_cols d) then Err
+  else if dims_bad (smd_rows d) (smd_cols d) then Err
   else if negb (idx_ok (wrap64 (smd_rows d * smd_cols d)) [] (smd_index d)) then Err
   else st <- new_sparse (smd_index d) vals (wrap64 (smd_rows d * smd_cols d)) ;;
        Ok (mkSm st (smd_rows d) (smd_cols d) 0 (smd_rows d) 0 (smd_cols d)).
